@@ -28,6 +28,10 @@ const cancelPrelude = `(do (def lp (fn [n] (lp (+ n 1))))
 
 var cancelMu sync.Mutex // the loop-top hook is process-wide
 
+// once an evaluation has failed to return it keeps running (and burning a core) in this process:
+// further timing-sensitive cases would be judged on a degraded machine, so they are skipped
+var cancelTainted int32
+
 func cancelEnv() (types.EnvType, types.MalType, error) {
 	ns, _, err := NewLoadedEnv()
 	if err != nil {
@@ -57,6 +61,10 @@ func runCancel(c *Case) Verdict {
 	cancelMu.Lock()
 	defer cancelMu.Unlock()
 	v := Verdict{Class: "cancel"}
+	if atomic.LoadInt32(&cancelTainted) != 0 {
+		v.Verdict = "skip"
+		return v
+	}
 	instants := []int{1, 2, 3, 4, 5, 7, 10, 15, 25, 60, 200, 1500}
 	for _, k := range instants {
 		ns, _, err := cancelEnv()
@@ -138,6 +146,7 @@ func runCancel(c *Case) Verdict {
 		cancel()
 		where := fmt.Sprintf("shape %d %q, context cancelled at loop iteration %d", c.Shape, c.Src, k)
 		if !finished {
+			atomic.StoreInt32(&cancelTainted, 1)
 			v.Verdict = "hang"
 			v.Key = "cancel:not-returned:" + hangSite()
 			v.Note = where + ": EVAL had not returned 5 s after the cancellation (" + fmt.Sprint(atomic.LoadInt64(&post)) + " loop iterations since)"
@@ -214,14 +223,19 @@ func runDeadline(c *Case) Verdict {
 			}
 			return "", ""
 		case <-time.After(D + slack):
+			atomic.StoreInt32(&cancelTainted, 1)
 			return "not-returned-after-deadline", fmt.Sprintf("still running %v after a %v deadline (%s)", D+slack, D, hangSite())
 		}
+	}
+	if atomic.LoadInt32(&cancelTainted) != 0 {
+		v.Verdict = "skip"
+		return v
 	}
 	what, detail := "", ""
 	for try := 0; try < 3; try++ { // wall clock: reported only if it fails three times
 		what, detail = attempt()
-		if what == "" || what == "infra" {
-			break
+		if what == "" || what == "infra" || what == "not-returned-after-deadline" {
+			break // (a run that never returns is not a timing fluke, and it keeps a core busy)
 		}
 	}
 	if what == "infra" {
